@@ -92,7 +92,8 @@ func idxCore() {
 
 func checkApply(doc *JV, ops []Op) { checkApplyOpts(doc, ops, 0) }
 
-// option bits of optmask: 1 AllowMissingPathOnRemove, 2 EnsurePathExistsOnAdd, 4 EscapeHTML, 8 AccumulatedCopySizeLimit symbolic
+// option bits of optmask: 1 AllowMissingPathOnRemove, 2 EnsurePathExistsOnAdd, 4 EscapeHTML, 8 AccumulatedCopySizeLimit symbolic,
+// 16 package-level AccumulatedCopySizeLimit symbolic (read by NewApplyOptions) with an optional per-call override
 // (SupportNegativeIndices is always symbolic). Options not selected keep the library defaults.
 func checkApplyOpts(doc *JV, ops []Op, optmask int) {
 	neg := vx.Bool("negidx")
@@ -101,6 +102,10 @@ func checkApplyOpts(doc *JV, ops []Op, optmask int) {
 	vx.Note("doc", docB)
 	vx.Note("patch", patchB)
 
+	if optmask&16 != 0 {
+		// package defaults are read by NewApplyOptions: a symbolic package-level limit, optionally overridden per call
+		jsonpatch.AccumulatedCopySizeLimit = vx.Int64("pkg.limit")
+	}
 	o := jsonpatch.NewApplyOptions()
 	o.SupportNegativeIndices = neg
 	ro := RefOpts{NegIdx: neg}
@@ -119,7 +124,15 @@ func checkApplyOpts(doc *JV, ops []Op, optmask int) {
 		o.EscapeHTML = escape
 	}
 	var sizeOf func(*JV) int
-	if optmask&8 != 0 {
+	if optmask&16 != 0 {
+		vx.Assert(o.AccumulatedCopySizeLimit == jsonpatch.AccumulatedCopySizeLimit, "C12/options-start-from-package-default")
+		limit = o.AccumulatedCopySizeLimit
+		sizeOf = func(v *JV) int { return escapedSize(v, escape) }
+		if vx.Choose("opt.override", 2) == 1 {
+			limit = vx.Int64("opt.limit")
+			o.AccumulatedCopySizeLimit = limit
+		}
+	} else if optmask&8 != 0 {
 		limit = vx.Int64("opt.limit")
 		o.AccumulatedCopySizeLimit = limit
 		sizeOf = func(v *JV) int { return escapedSize(v, escape) }
